@@ -24,7 +24,8 @@ RULE = (
 )
 ASSUMPTIONS = [
     "distinct boundaries of one tier are kept > 4e-14*t apart so that the rounding the statement allows cannot collapse an interval",
-    "blank filling is exercised with minimumIntervalLength=None (sliver absorption is C04's subject)",
+    "blank filling uses minimumIntervalLength=None, or the default 1e-8 on dyadic/decimal textgrids where no interval or gap is that short (sliver absorption is C04's subject)",
+    "textgrids whose tiers have their own spans: includeBlankSpaces=True is only combined with includeEmptyIntervals=False (kept blanks would legitimately widen the tier)",
     "fixed point is not asserted for includeEmptyIntervals=False when the input carries explicitly empty-labelled entries",
 ]
 REQUIRED_CLASSES = ["roundtrip:label_quote", "roundtrip:label_newline", "roundtrip:time_tiny", "roundtrip:time_near_integer",
@@ -85,11 +86,14 @@ def run_roundtrip(case):
     confusable = {"short_textgrid": iomodel.reader_confusion(data0, "short"),
                   "long_textgrid": iomodel.reader_confusion(data0, "long")}
     suppressed = []
+    mil = case.get("mil", "none")
     for fmt, blanks, ie in combos:
-        if not clean and (blanks or fmt == "json"):
+        if not clean and (fmt == "json" or (blanks and ie)):
+            # per-tier spans: json keeps one span by design; blanks that are kept on reading (ie=True)
+            # legitimately widen a tier whose span is narrower than the textgrid's
             continue
         try:
-            _one_combo(tg, spec, fmt, blanks, ie, has_explicit_empty)
+            _one_combo(tg, spec, fmt, blanks, ie, has_explicit_empty, clean, mil)
         except Violation as v:
             if confusable.get(fmt):
                 # candidate for the known finding (decided by the runner through KNOWN);
@@ -108,22 +112,23 @@ def run_roundtrip(case):
     return {"classes": sorted(cl), "nontrivial": nt}
 
 
-def _one_combo(tg, spec, fmt, blanks, ie, has_explicit_empty):
+def _one_combo(tg, spec, fmt, blanks, ie, has_explicit_empty, clean=True, mil="none"):
+    kw = {} if mil == "default" else {"minimumIntervalLength": None}
     if True:
         what = f"save({fmt}, includeBlankSpaces={blanks}) -> open(includeEmptyIntervals={ie})"
-        text1 = iomodel.save_text(tg, fmt, blanks, minimumIntervalLength=None)
+        text1 = iomodel.save_text(tg, fmt, blanks, **kw)
         try:
             tg2 = iomodel.open_bytes(text1.encode("utf-8"), ie)
         except Exception as e:  # noqa
             raise Violation(f"reopen-failed:{fmt}:{type(e).__name__}", f"{what}: {type(e).__name__}: {e}; text={text1[:300]!r}")
         got = iomodel.tg_to_data(tg2)
-        want = expected(spec, fmt, blanks, ie)
+        want = expected(spec, fmt, blanks and clean, ie)  # not clean: only ie=False gets here and the blanks are dropped on reading
         try:
             iomodel.compare_data(got, want, what, json_single_span=(fmt == "json"))
         except Violation as v:
             raise Violation(f"{v.clause}:{fmt}", v.message)
         if ie or not has_explicit_empty:
-            text2 = iomodel.save_text(tg2, fmt, blanks, minimumIntervalLength=None)
+            text2 = iomodel.save_text(tg2, fmt, blanks, **kw)
             if text2 != text1:
                 i = next((k for k in range(min(len(text1), len(text2))) if text1[k] != text2[k]), min(len(text1), len(text2)))
                 raise Violation(f"not-a-fixed-point:{fmt}", f"{what}: re-saved text differs at offset {i}: {text1[max(0, i-30):i+30]!r} vs {text2[max(0, i-30):i+30]!r}")
@@ -132,7 +137,10 @@ def _one_combo(tg, spec, fmt, blanks, ie, has_explicit_empty):
 @st.composite
 def cases(draw):
     clean = draw(st.integers(0, 5)) > 0
-    return {"tg": draw(gen.io_textgrid(clean=clean))}
+    tg = draw(gen.io_textgrid(clean=clean))
+    # the default minimumIntervalLength (1e-8) is used where no interval or gap can be that short
+    mil = "default" if tg["style"] in ("grid", "dec") and draw(st.booleans()) else "none"
+    return {"tg": tg, "mil": mil}
 
 
 CHECKS = [
